@@ -52,6 +52,10 @@ def run_case(case):
             expected = spec_selected(it, e)
         except Exception:
             expected = None
+        try:
+            spec_selected_always = [t for t in spec_selected(it, Event("")) if t.event == ""]
+        except Exception:
+            spec_selected_always = [None]
         before = (M.snapshot_of(it), len(tr.actions), {k: [n.id for n in v] for k, v in it._history.items()})
         can_before = it.can(ev)
         after_can = (M.snapshot_of(it), len(tr.actions), {k: [n.id for n in v] for k, v in it._history.items()})
@@ -64,7 +68,14 @@ def run_case(case):
         except Exception:
             pass
         after = (M.snapshot_of(it), len(tr.actions), {k: [n.id for n in v] for k, v in it._history.items()})
-        if expected is not None and not expected:
+        # the no-op clause is about a configuration that has settled: a machine whose always-transitions are enabled for
+        # ever (an eventless livelock that only the maxIterations breaker cuts - C13's subject) re-runs them after ANY
+        # macrostep, nominee or not; such a pre-state is outside the clause
+        try:
+            unsettled = bool(spec_selected_always)
+        except Exception:
+            unsettled = True
+        if expected is not None and not expected and not unsettled:
             if after != before:
                 out.append({"key": "observation/no-nominee:no-op", "detail": f"{ev}: {before[0]['config']} -> {after[0]['config']} actions+{after[1]-before[1]}"})
         if expected:
